@@ -139,10 +139,15 @@ def build_torus_pair(rng):
     rot = motion_of_class(rng, 'generic')
     mot = Motion([0, 0, 0], rot.b)
     deck.trs.append(tr_card(rng, 3, mot, rng.choice(['12', 'star'])))
+    rot2 = motion_of_class(rng, 'generic')
+    deck.trs.append(tr_card(rng, 4, Motion([0, 0, 0], rot2.b),
+                            rng.choice(['12', 'star'])))
     deck.surfs += [M.Surf(1, kind, par), M.Surf(2, kind, list(par), tr=3),
-                   M.Surf(3, 'so', [rnd(rng, 6.5, 8)])]
+                   M.Surf(3, 'so', [rnd(rng, 6.5, 8)]),
+                   M.Surf(4, kind, list(par), tr=4)]
     geoms = [M.S(-1), M.AND(M.S(-2), M.S(1)),
-             M.AND(M.S(1), M.S(2), M.S(-3)), M.S(3)]
+             M.AND(M.S(1), M.S(2), M.S(-3), M.S(4)), M.S(3),
+             M.AND(M.S(-4), M.S(1), M.S(2))]
     for num, geom in enumerate(geoms, start=1):
         deck.cells.append(M.Cell(num, mat=num, rho=f'-{num}.5',
                                  geom=M.AND(geom, M.S(-WORLD_SURF)),
